@@ -555,15 +555,34 @@ func (r *Run) RunWorkers(workers int, watchdog time.Duration, extra []string, on
 				if in, e2 := ioutil.ReadFile(out + ".inputs"); e2 == nil {
 					output += "\n--- last logged inputs ---\n" + tail(string(in), 3000)
 				}
+				// keep the whole output: the reason of a death that does not reproduce is only there
+				odir := filepath.Join(replayDir(), r.Prop, "observations")
+				os.MkdirAll(odir, 0755)
+				ofile := filepath.Join(odir, fmt.Sprintf("worker-%d-died-seed%d-%s.log", i, Seed(), Tier()))
+				ioutil.WriteFile(ofile, []byte(output), 0644)
 				if onCrash != nil {
 					onCrash(i, tail(output, 8000))
 				} else {
-					r.Inconclusive(fmt.Sprintf("worker %d did not finish (%v): %s", i, err, tail(output, 300)))
+					r.Inconclusive(fmt.Sprintf("worker %d did not finish (%v; full output in %s): %s", i, err, ofile, crashHead(output)))
 				}
 			}
 		}(i)
 	}
 	wg.Wait()
+}
+
+// crashHead returns the first lines of a Go panic / fatal error in a process output.
+func crashHead(s string) string {
+	for _, m := range []string{"\npanic: ", "\nfatal error: ", "panic: ", "fatal error: "} {
+		if k := strings.Index(s, m); k >= 0 {
+			e := k + 1500
+			if e > len(s) {
+				e = len(s)
+			}
+			return s[k:e]
+		}
+	}
+	return tail(s, 600)
 }
 
 func tail(s string, n int) string {
